@@ -605,6 +605,13 @@ func (p *Program) canon(fn *Func, x ast.Expr, depth int) string {
 		return fmt.Sprintf("funclit@%d", v.Pos())
 	case *ast.CallExpr:
 		if tv, ok := info.Types[v.Fun]; ok && tv.IsType() && len(v.Args) == 1 {
+			// a conversion between two names of one container / struct / pointer type denotes the same value
+			// (moduleSet(h.Modules) is h.Modules); numeric and string conversions are kept
+			if av, ok := info.Types[v.Args[0]]; ok && av.Type != nil {
+				if _, basic := tv.Type.Underlying().(*types.Basic); !basic && types.Identical(tv.Type.Underlying(), av.Type.Underlying()) {
+					return p.canon(fn, v.Args[0], depth+1)
+				}
+			}
 			return "conv:" + typeShort(tv.Type) + "(" + p.canon(fn, v.Args[0], depth+1) + ")"
 		}
 		if res, rfn, ok := p.inlinedResults(fn, v); ok && len(res) == 1 {
